@@ -1,0 +1,22 @@
+//go:build verif
+
+// Contracts for package rtptime, used by /verif (gvc).  This file contains no
+// declarations; it is compiled only with the verif build tag.
+
+package rtptime
+
+//@ -- Clock readings: arbitrary values, no effect on program state.
+//@ func Jiffies
+//@   trusted
+//@   why rtptime.go: Now(JiffiesPerSec), a conversion of time.Since(epoch)
+//@   modifies nothing
+//@
+//@ func Now
+//@   trusted
+//@   why rtptime.go: conversion of time.Since(epoch)
+//@   modifies nothing
+//@
+//@ func Microseconds
+//@   trusted
+//@   why rtptime.go: Now(1000000)
+//@   modifies nothing
